@@ -14,16 +14,19 @@
 
    Every transmission is parsed by TLC (session-less: null session; in-session:
    wrapper, AuthCode verdict, confidentiality pad, message checksums). *)
-EXTENDS Wire, Json, IOUtils, TLC, FiniteSets
+EXTENDS Wire, Json, IOUtils, TLC, FiniteSets, MetricsLaw
 
 Trace == ndJsonDeserialize(IOEnv.VERIF_TRACE)
 Cfg   == JsonDeserialize(IOEnv.VERIF_TRACECFG)
 Known == Cfg.known
 
-VARIABLES l, viol, info, exp, reqs, seqN, ivs, incall, fired
-vars == <<l, viol, info, exp, reqs, seqN, ivs, incall, fired>>
+VARIABLES l, viol, info, exp, reqs, seqN, ivs, incall, fired, prevM, mcall
+vars == <<l, viol, info, exp, reqs, seqN, ivs, incall, fired, prevM, mcall>>
+NoCall == [kind |-> "none", name |-> "", err |-> FALSE, ntx |-> 0, codes |-> <<>>]
+DialCall == [NoCall EXCEPT !.kind = "dial"]
+NoM == [nometrics |-> 0]
 NoRec == [none |-> TRUE]
-Init == l = 1 /\ viol = {} /\ info = NoRec /\ exp = NoRec /\ reqs = <<>> /\ seqN = 0 /\ ivs = {} /\ incall = FALSE /\ fired = {}
+Init == l = 1 /\ viol = {} /\ info = NoRec /\ exp = NoRec /\ reqs = <<>> /\ seqN = 0 /\ ivs = {} /\ incall = FALSE /\ fired = {} /\ prevM = NoM /\ mcall = NoCall
 
 Ev == Trace[l]
 Has(r, f) == f \in DOMAIN r
@@ -111,21 +114,32 @@ NewViol == LET e == Ev IN
   ELSE IF e.ev = "ret" /\ Has(e, "exp") THEN RetViol(e)
   ELSE IF e.ev = "ret" THEN Check("C05", "no-panic-no-hang", ~Has(e, "panic") /\ ~Has(e, "hang"))
   ELSE IF e.ev \in {"harnessError", "prefixFailed"} THEN Check("HARNESS", e.ev, FALSE)
+  ELSE IF e.ev = "metrics" /\ prevM # NoM /\ mcall.kind # "none"
+       THEN LET bad == BadKeys(prevM, e.m, mcall) IN
+            IF bad = {} THEN {} ELSE {[prop |-> "C18", pred |-> "counters-change-by-exactly-what-happened",
+                                       ctx |-> [keys |-> bad, kind |-> mcall.kind, err |-> mcall.err]]}
   ELSE {}
 
 Step ==
   LET e == Ev IN
   CASE e.ev = "reset" -> /\ info' = (IF Has(e, "info") THEN e.info ELSE NoRec) /\ exp' = NoRec /\ reqs' = <<>> /\ seqN' = 0 /\ ivs' = {}
-                         /\ incall' = FALSE /\ fired' = {}
+                         /\ incall' = FALSE /\ fired' = {} /\ prevM' = NoM /\ mcall' = NoCall
     [] e.ev = "call" -> /\ exp' = (IF Has(e, "exp") THEN e.exp ELSE NoRec) /\ reqs' = <<>> /\ incall' = TRUE /\ fired' = {}
-                        /\ UNCHANGED <<info, seqN, ivs>>
+                        /\ mcall' = [kind |-> (IF e.api \in {"Cmd", "Raw"} THEN "command" ELSE "none"), name |-> "", err |-> FALSE, ntx |-> 0, codes |-> <<>>]
+                        /\ UNCHANGED <<info, seqN, ivs, prevM>>
     [] e.ev = "tx" -> /\ reqs' = (IF Has(info, "notx") /\ info.notx THEN reqs ELSE Append(reqs, Abstract(e)))
                       /\ seqN' = (IF InSess THEN seqN + 1 ELSE seqN)
                       /\ ivs' = (IF InSess /\ Len(e.raw) >= 32 THEN ivs \cup {Sub(e.raw, 16, 32)} ELSE ivs)
                       /\ fired' = (IF Has(e, "rule") THEN fired \cup {e.rule} ELSE fired)
-                      /\ UNCHANGED <<info, exp, incall>>
-    [] e.ev = "ret" -> /\ incall' = FALSE /\ UNCHANGED <<info, exp, reqs, seqN, ivs, fired>>
-    [] OTHER -> UNCHANGED <<info, exp, reqs, seqN, ivs, incall, fired>>
+                      /\ mcall' = [mcall EXCEPT !.ntx = @ + 1]
+                      /\ UNCHANGED <<info, exp, incall, prevM>>
+    [] e.ev = "rx" -> /\ mcall' = (IF incall /\ Has(e, "attrs") /\ Has(e.attrs, "valid") /\ e.attrs.valid THEN [mcall EXCEPT !.codes = Append(@, e.attrs.code)] ELSE mcall)
+                      /\ UNCHANGED <<info, exp, reqs, seqN, ivs, incall, fired, prevM>>
+    [] e.ev = "ret" -> /\ incall' = FALSE
+                       /\ mcall' = (IF Has(e, "err") /\ Has(e, "cmdName") THEN [mcall EXCEPT !.err = e.err, !.name = e.cmdName] ELSE [mcall EXCEPT !.kind = "none"])
+                       /\ UNCHANGED <<info, exp, reqs, seqN, ivs, fired, prevM>>
+    [] e.ev = "metrics" -> /\ prevM' = e.m /\ mcall' = NoCall /\ UNCHANGED <<info, exp, reqs, seqN, ivs, incall, fired>>
+    [] OTHER -> UNCHANGED <<info, exp, reqs, seqN, ivs, incall, fired, prevM, mcall>>
 
 IsKnown(v) == \E i \in 1..Len(Known) : LET k == Known[i] IN k.prop = v.prop /\ k.pred = v.pred
 Next == /\ l <= Len(Trace)
